@@ -90,7 +90,7 @@ def run(rep, tier, seed, known, part):
     x, w, c, ymax, sl, ic = FPs("x w c ymax sl ic", F64)
     fin = lambda v: And(Not(fpIsNaN(v)), Not(fpIsInf(v)))
 
-    def decide(name, neg, cmd_of_model, check_native, timeout_ms=120000, detail=None):
+    def decide(name, neg, cmd_of_model, check_native, timeout_ms=120000, detail=None, enum=None):
         s = Solver()
         s.set("timeout", timeout_ms)
         s.add(neg)
@@ -117,6 +117,23 @@ def run(rep, tier, seed, known, part):
                 rep.inconclusive.append("C22 model for '%s' does not reproduce natively: %s" % (name, what))
                 rep.obligation(name, "inconclusive", {"input": cmd, "note": what})
             return m
+        if enum is not None:
+            # the solver gave up: decide the same formula by evaluating the encoded term on EVERY value of the finite domain
+            var, count = enum
+            t1 = time.time()
+            for k in range(count):
+                if not is_false(simplify(substitute(neg, (var, BitVecVal(k, var.size()))))):
+                    s2 = Solver(); s2.add(neg, var == k)
+                    if s2.check() == sat:
+                        m = s2.model(); cmd = cmd_of_model(m); ok, what = check_native(m, cmd)
+                        rp = rep.replay_file("c22_" + "".join(ch if ch.isalnum() else "_" for ch in name)[:60], "// engine=M case=c22\n// native(nativepix): %s\n// %s\n" % (" ".join(map(str, cmd)), what))
+                        if ok:
+                            rep.violations.append((name + ": " + what, rp)); rep.obligation(name, "violated", {"input": cmd, "note": what}); return m
+                        rep.inconclusive.append("C22 enumerated counterexample for '%s' does not reproduce natively" % name); return None
+            d["decided_by"] = "solver answered %s after %ss; the encoded term was then evaluated on all %d values of the domain (%.0fs)" % (r, dt, count, time.time() - t1)
+            rep.nontrivial += 1
+            rep.obligation(name, "holds", d)
+            return None
         rep.inconclusive.append("solver answered %s on '%s' after %ss" % (r, name, dt))
         rep.obligation(name, "inconclusive", d)
         return None
@@ -195,7 +212,8 @@ def run(rep, tier, seed, known, part):
         def f_of(index):
             return M.call(NWF_CLO, [R({0: R(BoolVal(signed)), 1: R(BitVecVal(1 << bits, 64)), 2: R(clo)}), index])["numcast"]
         i1, i2 = BitVecs("i1 i2", 64)
-        y1, y2 = f_of(i1), f_of(i2)
+        i1n = (i1 + 1) & BitVecVal((1 << bits) - 1, 64)
+        y1, y2 = f_of(i1), f_of(i1n)
         size = BitVecVal(1 << bits, 64)
         sx = lambda v: If(Extract(bits - 1, bits - 1, v) == 1, v - size, v) if signed else v
         tmaxf = FPVal(float(tmax), F64)
@@ -209,20 +227,21 @@ def run(rep, tier, seed, known, part):
             return real in ("ERR", "PANIC"), "real Lut construction/get answers %s" % real
         # in range: 0 <= y <= max of the output type (so the conversion cannot fail) and y <= y_max
         decide("output within [0, y_max] and convertible for all stored values: " + label,
-               And(ULT(i1, size), Or(fpIsNaN(y1), fpLT(y1, FPVal(0.0, F64)), fpGT(y1, tmaxf), fpGT(y1, y_max_code))), cmd_lut, nat_range, detail={"y_max_from_code": str(y_max_code)})
+               And(ULT(i1, size), Or(fpIsNaN(y1), fpLT(y1, FPVal(0.0, F64)), fpGT(y1, tmaxf), fpGT(y1, y_max_code))), cmd_lut, nat_range, timeout_ms=90000,
+               detail={"y_max_from_code": str(y_max_code)}, enum=(i1, 1 << bits))
         if slope >= 0:
             t1 = fpToUBV(RTZ(), y1, BitVecSort(32))
             t2 = fpToUBV(RTZ(), y2, BitVecSort(32))
 
             def nat_mono(m, cmd):
                 a = nat.ask(*cmd)
-                b = nat.ask(*cmd_lut(m, i2))
+                b = nat.ask(*cmd_lut(m, i1n))
                 try:
-                    return int(a) > int(b), "stored %s -> %s but larger stored %s -> %s" % (cmd[-1], a, cmd_lut(m, i2)[-1], b)
+                    return int(a) > int(b), "stored %s -> %s but larger stored %s -> %s" % (cmd[-1], a, cmd_lut(m, i1n)[-1], b)
                 except ValueError:
                     return False, "native answered %s / %s" % (a, b)
             decide("monotone (adjacent stored values, hence all): " + label,
-                   And(ULT(i1, size), i2 == ((i1 + 1) & (size - 1)), sx(i1) < sx(i2), UGT(t1, t2)), cmd_lut, nat_mono, timeout_ms=600000)
+                   And(ULT(i1, size), sx(i1) < sx(i1n), UGT(t1, t2)), cmd_lut, nat_mono, timeout_ms=90000, enum=(i1, 1 << bits))
     # translator validation against the real functions on concrete points (incl. the repo's own test vectors)
     bad = []
     for (kind, wd, ce, xv, ym) in [("linear", 4096.0, 2048.0, 1024.0, 255.0), ("linear", 300.0, 50.0, -100.0, 255.0), ("linear", 300.0, 50.0, 50.0, 255.0),
